@@ -110,6 +110,19 @@ def _case(draw):
         sol["surface_flux_shape"] = draw(st.sampled_from(["diamond", "circle", "point"]))
     if draw(st.booleans()):
         sol["src_loc"] = [draw(gen.fl(0.0, 1.0)) * d["xmax"], draw(gen.fl(0.0, 1.0)) * d["ymax"]]
+    # whole-number quantities as integers, the way `xmax: 500`, `z_m: 10`, `wind_dir: 270`, `mol: -100` come out of YAML
+    if draw(st.integers(0, 2)) == 0:
+        d["xmax"], d["ymax"] = int(round(d["xmax"])), int(round(d["ymax"]))
+        if isinstance(d.get("halo"), float):
+            d["halo"] = int(round(d["halo"]))
+        if not geo:  # towers were placed by lat/lon relative to the extents only when geo is on
+            for t in towers:
+                t["z_m"] = int(round(t["z_m"])) + 1
+        def _ints(v):
+            return [int(round(x)) for x in v] if isinstance(v, list) else int(round(v))
+        met["wind_dir"] = _ints(met["wind_dir"])
+        met["wind_speed"] = _ints(met["wind_speed"])
+        met["mol"] = _ints(met["mol"])
     raw = {"domain": d, "towers": towers, "met": met, "solver": sol}
     case = {"raw": raw, "tower": draw(st.integers(0, ntw - 1)), "step": draw(st.integers(0, nt - 1)), "flux": None}
     if draw(st.integers(0, 2)) == 0:
